@@ -1,6 +1,7 @@
 """C08 — NaN and None are the same null, and nulls are transparent to valid aggregations. Engine K part
 (order statistics, extrema, counts, exact sums; encoding independence of the exact functions)."""
 import kani_engine
+from mir_engine import props_m
 
 RULE = ("one Kani harness per (law, function family, length N); null transparency: series s of length N and s' = s with one "
         "null inserted at a symbolic position (length N+1) are run through the same function and must agree exactly "
@@ -10,7 +11,7 @@ RULE = ("one Kani harness per (law, function family, length N); null transparenc
         "when its kani::cover! witnesses are SATISFIED")
 
 MANIFEST = {
-    "engine": "K",
+    "engine": "K+M",
     "technique": "bounded model checking (Kani/CBMC, SAT) of relational laws between two runs of the same aggregation: null insertion "
                  "at a symbolic position, NaN versus None input encoding, f64 versus Option<f64> output encoding",
     "design_ref": "DESIGN.md 3/C08",
@@ -44,4 +45,18 @@ def check(v, tier, opts):
     v.outside.append("lengths above the bound; moments, covariance, correlation (Engine M); Some(NaN) (DESIGN 5.4)")
     v.assumptions.append("canonical nulls only (NaN for f64, None for Option<_>)")
     kani_engine.decide(v, "C08", tier, opts)
-    return v.finish(RULE)
+    only = opts.get("only")
+    if not only or only.startswith("v"):
+        props_m.c08_m(v, tier, opts)     # Engine M part (moment formulas in exact real arithmetic)
+    return v.finish(RULE + M_RULE)
+
+
+M_RULE = ("; Engine M: for vmean, vmean_var, vvar, vstd, vcov, vcorr_pearson the real code is executed twice from its MIR — on a series "
+          "and on the series with one null inserted at each position — and z3 is asked for real inputs where null flag or value differ")
+MANIFEST["technique"] += "; MIR->SMT symbolic execution of the moment aggregations, two runs related by a null insertion, decided by z3"
+MANIFEST["level_text"] += ("; z3 decides for all real inputs (length <= 4 quick / 5 thorough, every insertion position, every null mask) that "
+                           "mean, variance, standard deviation, covariance and Pearson correlation are unchanged by inserting a null; "
+                           "NaN/None encoding independence of the float kernels follows from their being one generic MIR body over the "
+                           "IsNone/Cast rows proved in C15")
+MANIFEST["level_note"] += "; Engine M: fold protocol (c11_fold_protocol_*), exact real arithmetic, |x|<=100; vskew/vkurt aggregation forms outside"
+READY = True
